@@ -17,4 +17,8 @@ PROP = {'gen_tables': ['SyncFacts'],
                  'lock order of nested wrappers is by construction order (a wrapper is created after the object it wraps); user sinks and '
                  'callbacks (ObservedLogs.Filter predicate) are outside the claim',
                  'a zero AtomicLevel must be completed (UnmarshalText) before it is shared',
-                 'panic-freedom and the real scheduler are sampled by the generated programs under -race, not proved']}
+                 'panic-freedom and the real scheduler are sampled by the generated programs under -race, not proved'],
+ 'technique': 'Lean 4: happens-before model of event traces (mutex, RWMutex, Once, go); each locking discipline class (lockset, rw-lockset, atomic-only, once-publish, immutable-after-publish, owner-only, lock-publish) proved data-race-free by induction over traces with a vector-clock invariant; ranked-lock no-deadlock theorem; every access site of the shared types (regenerated SyncFacts table, go/ast) is decided to fit a class; tie: Gen SyncFacts + generated multi-goroutine programs on the real zap under -race with watchdogs',
+ 'level_text': 'class_sound and no_deadlock are proved for every trace / schedule of the model; all_fields_disciplined is decided over the 252 access sites re-extracted from the current source; the link from the syntactic site table to dynamic traces, panic-freedom and the real scheduler are sampled under -race, not proved (partial).',
+ 'level_note': 'Partial: syntactic over-approximation of guards (no type checker); Go memory model and runtime primitives are the assumption; user sinks/callbacks are outside the claim.',
+}
